@@ -45,6 +45,7 @@ func CreatePropellerUnits(
 			CommitteeID: *committeeID,
 			Publisher:   publisherID,
 			MessageRoot: messageRoot,
+			Nonce:       nonce,
 			MerkleProof: merkleTree[i],
 			Signature:   signature,
 			ShardIndex:  ShardIndex(i),
